@@ -36,6 +36,16 @@ def builder(ncols, nsymrep=3, timeout=900, exclude=FIND):
     return E2(nm, H, defines=d, all_lib=True, timeout=timeout, stubs=STUBS_B, bounds=b, exclude=exclude, leaks=False, max_paths=100000)
 
 
+def evidence_extra(tier):
+    return {'outside_the_bounds': [
+        'trees with more than %d nodes (depth > %d)' % ((6, 5) if tier == 'quick' else (7, 6)),
+        'the maximum levels AS USED by the column readers are observed only where a row group exists (reader/tree-n*/pages, n <= %d): the public accessors do not expose them (open finding F-SCHEMA-NODE-LEVELS)' % (5 if tier == 'quick' else 6),
+        'duplicate leaf names in different groups and dotted-path lookup ("a.b.v"): carquet_schema_find_column compares leaf names only although its documentation promises dot-separated paths (names are distinct here)',
+        'builder: more than 130 columns; nested shapes (carquet_schema_add_group only attaches to the root and later columns do not become its children)',
+        'allocation failures inside the builder (C19)'],
+        'engine': 'E2/symx'}
+
+
 def obligations(tier):
     q = tier == 'quick'
     o = []
